@@ -39,6 +39,14 @@ func Doc(r *Rand, c DocCfg) []byte {
 	}
 	g := &docGen{r: r, c: c, budget: c.Size}
 	g.ws()
+	if c.Size < 4096 && r.Chance(1, 64) {
+		// the two shortest documents there are (with or without white space inside)
+		g.b.WriteByte("{["[b2i(c.OnlyArr || !c.OnlyObj && r.Bool())])
+		g.ws()
+		g.b.WriteByte("}]"[b2i(g.b.Bytes()[bytes.IndexAny(g.b.Bytes(), "{[")] == '[')])
+		g.ws()
+		return g.b.Bytes()
+	}
 	obj := r.Bool()
 	if c.OnlyObj {
 		obj = true
@@ -407,4 +415,11 @@ func Aperiodic(r *Rand, size int, density int) []byte {
 	}
 	b.WriteByte(']')
 	return b.Bytes()
+}
+
+func b2i(b bool) int {
+	if b {
+		return 1
+	}
+	return 0
 }
